@@ -36,6 +36,10 @@ def rand_bytes(rng, n, flavour):
 def token_soup(rng, lits, n_tokens):
     words = [l for (v, l, ic) in lits] + ['x', 'y1', '_z', '1', '16#FF', '2#1', '8#7', '1.5', '1.0E5', 'T#1s', 'TOD#1:2:3', 'D#2024-01-01', '%IX1', '%Q*',
                                            "'s'", '"w"', '(* c *)', '\n', '  ', ':=', '=>', '..', '**', '<>', '<=', '>=']
+    # long lexemes with multi-byte characters at every offset (messages quote the offending lexeme)
+    for n in (3, 10, 19, 20, 21, 38, 39, 40, 41, 42, 79, 80, 81, 200):
+        words += ["'" + 'ü' * n + "'", "'" + 'a' * (n % 3) + 'größer als 日本' * (n // 4 + 1) + "'", '"' + 'x' * (n - 1) + 'é' * 3 + '"',
+                  '(* ' + 'é' * n + ' *)', 'i' * n, '9' * n]
     out = []
     for _ in range(n_tokens):
         out.append(rng.choice(words))
@@ -46,6 +50,8 @@ def token_soup(rng, lits, n_tokens):
 def mutate(rng, lex, lits):
     lex = [x for x in lex]
     words = [('kw', l) for (v, l, ic) in lits] + [('id', 'q'), ('lit', '1'), ('lit', '1.5'), ('lit', "'s'"), ('p', ';'), ('p', ':='), ('p', '(')]
+    for n in (10, 20, 39, 40, 41, 80):
+        words += [('lit', "'" + 'ü' * n + "'"), ('lit', "'" + 'a' * (n % 3) + 'größer als 日本' * (n // 4 + 1) + "'"), ('lit', '(* ' + 'é' * n + ' *)'), ('id', 'i' * n)]
     kinds = []
     for _ in range(rng.choice([1, 1, 2, 3, 4])):
         idx = [i for i, x in enumerate(lex) if x[0] not in ('_', 'nl', 'g0')]
@@ -178,6 +184,11 @@ def build_cases(ctx, rng, lits, kws):
                 '4294967296', '16#FFFFFFFFFFFFFFFFFFFFFFFFFFFFFFFF', '2#' + '1' * 129, '1.0E400', '1.0E-400', '1.7976931348623159E308', 'T#106751991167301h', 'T#9223372036854775807s',
                 'T#9223372036854775808s', 'T#18446744073709551615d', 'T#0.0000000001ms', 'TOD#24:00:00', 'TOD#23:59:60', 'D#0000-01-01', 'D#9999-12-31', 'D#10000-01-01',
                 'D#2023-02-29', 'DT#9999-12-31-23:59:59.999999999', "'" + 's' * 300 + "'", '0', '-0', '+0', '00000000000000000000000000000000000000001']
+    # fractions of every length around the 15-digit limit of the fixed point reader, with and without trailing zeros
+    fracs = ['5' + '0' * k for k in (0, 8, 13, 14, 15, 16, 20, 40)] + ['1' * k for k in (9, 10, 14, 15, 16, 17, 30)] + ['0' * k + '1' for k in (5, 8, 9, 14, 15, 16)]
+    for fr in fracs:
+        for form in ['T#1.{}s', 'T#0.{}ms', 'T#2.{}d', 'TOD#12:00:00.{}', 'DT#2024-01-01-12:00:00.{}', '1.{}', '1.{}E3']:
+            extremes.append(form.format(fr))
     for lit in extremes:
         for cname, t in literal_contexts(lit): add('literal:' + cname, t, sub=lit[:24])
     for (ty, lit, exp, kind) in lit_cases[:(60 if q else len(lit_cases))]:
